@@ -267,3 +267,47 @@ Fixpoint sim_check (c : cfg) (s : st) (b : bl) (ops : list op) : bool :=
     let '(b1, y) := bl_step c b o in
     (x =? y) && rep_ok c s1 && abs_eqb c s1 b1 && sim_check c s1 b1 r
   end.
+
+(* ================= byte pools used directly (byte_pool.go, fixed_byte_pool.go) =================
+   cfg reused: cap = elemNum, ksz = (max) element size, fixed = FixedBytePool.  The pool content is the slot
+   list of the array model: Get(i) returns the key of the last successful Set(i, .), initially "" (BytePool,
+   length 0) or elemSize zero bytes (FixedBytePool). *)
+Inductive pop :=
+| PSet (idx : Z) (k : key)
+| PGet (idx : Z)
+| PMax.
+Definition pool_init (c : cfg) : list key := slots (init c).
+(* observation: Set -> 0 ok / 1 index out of range / 2 wrong length; Get -> the bytes, or [-2] (Go panics on an
+   index >= elemNum: slice bounds out of range); MaxElemSize -> size *)
+Definition pool_step (c : cfg) (sl : list key) (o : pop) : list key * val :=
+  match o with
+  | PSet idx k =>
+    if cap c <=? idx then (sl, VZ 1)
+    else if pool_accepts c k then (upd sl idx k, VZ 0) else (sl, VZ 2)
+  | PGet idx => (sl, if cap c <=? idx then VL [VZ (-2)] else VB (getK sl idx))
+  | PMax => (sl, VZ (ksz c))
+  end.
+Fixpoint pool_run (c : cfg) (sl : list key) (ops : list pop) : list val :=
+  match ops with
+  | [] => []
+  | o :: r => let '(s1, x) := pool_step c sl o in x :: pool_run c s1 r
+  end.
+(* specification: last successful write wins, per index (association list, newest first) *)
+Fixpoint alookup (i : Z) (m : list (Z * key)) (d : key) : key :=
+  match m with [] => d | (j, k) :: r => if i =? j then k else alookup i r d end.
+Definition pool_default (c : cfg) : key := if fixed c then repeat 0 (Z.to_nat (ksz c)) else [].
+Definition psp_step (c : cfg) (m : list (Z * key)) (o : pop) : list (Z * key) * val :=
+  match o with
+  | PSet idx k =>
+    if cap c <=? idx then (m, VZ 1)
+    else if pool_accepts c k then ((idx, k) :: m, VZ 0) else (m, VZ 2)
+  | PGet idx => (m, if cap c <=? idx then VL [VZ (-2)] else VB (alookup idx m (pool_default c)))
+  | PMax => (m, VZ (ksz c))
+  end.
+Fixpoint psp_run (c : cfg) (m : list (Z * key)) (ops : list pop) : list val :=
+  match ops with
+  | [] => []
+  | o :: r => let '(m1, x) := psp_step c m o in x :: psp_run c m1 r
+  end.
+Definition pop_ok (o : pop) : bool :=
+  match o with PSet idx _ | PGet idx => 0 <=? idx | PMax => true end.
